@@ -262,8 +262,12 @@ def t_tilt_about_centre(ctx, rng, desc):
     if not math.isfinite(foot) or foot > 0.2 * abs(R):
         ctx.count('tilt: footprint too large for the root-selection heuristic (out of domain)')
         return
+    # conditioning of the quadratic for a ray that starts a distance t in front of a sphere of radius R: b^2 - 4ac loses
+    # (t/R)^2 in relative accuracy (nearly afocal lenses with an F-number aperture are launched from kilometres away)
+    tmax = max(float(np.nanmax(np.abs(A['z'][j] - A['z'][j - 1]))) for j in range(1, k + 1))
+    cond = 50 * 2.2e-16 * tmax * tmax / abs(R)
     compare_rel(ctx, 'tilting a sphere about its own centre of curvature changes nothing', case, A, B,
-                lambda f, v: v, rtol=1e-8, atol=1e-8)
+                lambda f, v: v, rtol=1e-8, atol=1e-8 + cond)
 
 
 def t_scale(ctx, rng, desc):
